@@ -232,6 +232,21 @@ Definition reviewed : list (string * string * string * string) := [
   ("mpf/core/platform_controller.py", "PlatformController", "_get_configured_driver_with_hold", "escape");
   ("mpf/core/platform_controller.py", "SoftwareEosRepulseManager", "_repulse_on_eos_open", "call:enable");
   ("mpf/core/platform_controller.py", "SoftwareEosRepulseManager", "_repulse_on_eos_open", "call:pulse");
+  (* the runtime defaults: written only at construction and by the placeholder callbacks, never verified there;
+     the history model (Hist.v: HSetPulseMs / HSetTimedEnableMs) lets them take any value at any time and every
+     use goes through get_and_verify_* (theorem any_default_within_limits) *)
+  ("mpf/devices/driver.py", "Driver", "__init__", "set:_pulse_ms");
+  ("mpf/devices/driver.py", "Driver", "__init__", "set:_timed_enable_ms");
+  ("mpf/devices/driver.py", "Driver", "_calculate_pulse_ms_placeholder", "set:_pulse_ms");
+  ("mpf/devices/driver.py", "Driver", "_calculate_timed_enable_ms_placeholder", "set:_timed_enable_ms");
+  (* further entry points: public Driver API only (requests RPulse / REnable / RDisable of the model; exercised as
+     the flavours 'player' and 'light' of the call / hist suites) *)
+  ("mpf/config_players/coil_player.py", "CoilPlayer", "clear_context", "api:disable");
+  ("mpf/config_players/coil_player.py", "CoilPlayer", "play", "api:disable");
+  ("mpf/config_players/coil_player.py", "CoilPlayer", "play", "api:enable");
+  ("mpf/config_players/coil_player.py", "CoilPlayer", "play", "api:pulse");
+  ("mpf/platforms/driver_light_platform.py", "DriverLight", "set_brightness", "api:disable");
+  ("mpf/platforms/driver_light_platform.py", "DriverLight", "set_brightness", "api:enable");
   (* digital outputs are not coils: no limits are configured for them (classified, see NOTES.md) *)
   ("mpf/devices/digital_output.py", "DigitalOutput", "_initialize_driver", "configure_driver");
   ("mpf/devices/digital_output.py", "DigitalOutput", "enable", "call:enable");
